@@ -103,6 +103,45 @@ func (r *vfChunkReader) Read(p []byte) (int, error) {
 	return n, nil
 }
 
+// The one-shot forms call escapeData / unescapeData directly when zz_verif_c04_opt_test.go could be compiled against the tree
+// (it is left out by the driver when their signatures have changed); otherwise they go through the streaming writer / reader
+// with one write and one big read, which is how the transfer code reaches them.
+var vfEscapeDirect func(data []byte, table *escapeTable) []byte
+var vfUnescapeDirect func(data []byte, table *escapeTable) ([]byte, []byte, error)
+
+func vfEscOne(data []byte, table *escapeTable) []byte {
+	if vfEscapeDirect != nil {
+		return vfEscapeDirect(data, table)
+	}
+	sink := &vfSink{}
+	w := newEscapeWriter(table, sink)
+	if len(data) > 0 {
+		writeAll(w, data)
+	}
+	w.Close()
+	return append([]byte(nil), sink.Bytes()...)
+}
+
+func vfUnescOne(data []byte, table *escapeTable) ([]byte, []byte, error) {
+	if vfUnescapeDirect != nil {
+		return vfUnescapeDirect(data, table)
+	}
+	r := newEscapeReader(table, &vfChunkReader{chunks: [][]byte{data}})
+	defer r.Close()
+	var out []byte
+	buf := make([]byte, 2*len(data)+64)
+	for {
+		n, err := r.Read(buf)
+		out = append(out, buf[:n]...)
+		if err == io.EOF {
+			return out, nil, nil
+		}
+		if err != nil {
+			return out, nil, err
+		}
+	}
+}
+
 func vfC04Run(cs vfC04Case) (msg string, nontrivial bool) {
 	table, protected, codes, err := vfBuildTable(&cs)
 	if err != nil {
@@ -116,13 +155,13 @@ func vfC04Run(cs vfC04Case) (msg string, nontrivial bool) {
 		}
 	}
 	// (a) one-shot round trip
-	esc := escapeData(cs.Data, table)
+	esc := vfEscOne(cs.Data, table)
 	for i, b := range esc {
 		if protected[b] {
 			return fmt.Sprintf("escapeData output contains protected byte 0x%02x at %d", b, i), hasProtected
 		}
 	}
-	back, rem, err := unescapeData(esc, table, nil)
+	back, rem, err := vfUnescOne(esc, table)
 	if err != nil {
 		return "unescapeData(escapeData(x)) error: " + err.Error(), hasProtected
 	}
@@ -239,7 +278,7 @@ func vfC04Run(cs vfC04Case) (msg string, nontrivial bool) {
 			at = len(esc)
 		}
 		bad := append(append(append([]byte(nil), esc[:at]...), escapeLeaderByte, cs.BadCode), esc[at:]...)
-		if got, _, err := unescapeData(bad, table, nil); err == nil {
+		if got, _, err := vfUnescOne(bad, table); err == nil {
 			return fmt.Sprintf("unescapeData accepted undefined pair ee %02x (decoded to %s)", cs.BadCode, vfShort(got, 40)), true
 		}
 		rr := newEscapeReader(table, &vfChunkReader{chunks: vfChunks(bad, cs.Cuts)})
